@@ -39,6 +39,8 @@ inductive Wrapper where
 /-- Scripted behaviour of the external program. -/
 inductive Tool where
   | ok | reorder | garbageEmpty | garbageRagged | garbageMissing | garbageLength | garbageTree
+  | garbageSwap   -- equal row lengths, right headers; row 0 has one symbol too many, row 1 one too few (totals agree)
+  | bigout        -- like `ok`, but first writes more than a pipe buffer to STDERR: blocks until the pipe is read
   | exit3      -- exits with code 3
   | sigkill    -- writes complete, valid output, then dies by a signal (return code -9)
   | hang
@@ -277,6 +279,7 @@ structure St where
   mbed : Bool := true          -- ClustalO `_mbed`
   treeSet : Bool := false      -- ClustalO `set_guide_tree` was called
   result : Option (List Nat × List Nat) := none   -- (`_alignment` rows in input order, `_order`)
+  gap : Option (Int × Int) := none   -- MuscleApp `_gap_open`, `_gap_ext`
   deriving DecidableEq, Repr
 
 inductive Res where
@@ -309,8 +312,12 @@ def initFiles : Wrapper → Nat
 /-- The program never exits on its own. -/
 def hangs (t : Tool) : Bool := t = .hang ∨ t = .hangIgnoreTerm
 
+/-- The program has written more than a pipe buffer and cannot go on (let alone exit) before the wrapper reads the pipe:
+`poll()` never sees it finished, only `communicate()` lets it complete.  (The `Application` stub has no pipes.) -/
+def blocksOnPipe (s : St) : Bool := s.tool = .bigout && s.w != .base
+
 /-- The external program has exited as far as `poll()` / the stub's `is_finished()` can tell. -/
-def exited (s : St) : Bool := s.released && !hangs s.tool
+def exited (s : St) : Bool := s.released && !hangs s.tool && !blocksOnPipe s
 
 /-- What the exiting program leaves behind: the child is gone; real MAFFT (and the fake one) writes `<input>.tree`
 next to its input unless it fails with an exit code. -/
@@ -381,8 +388,16 @@ def readsTree (w : Wrapper) (treeSet : Bool) : Bool :=
   | .mafft => true
   | _ => false
 
-/-- Does the program's output contain a row failing a length check (unequal row lengths / wrong symbol count)? -/
-def badLengths (t : Tool) : Bool := t = .garbageRagged ∨ t = .garbageLength
+/-- Error of the symbol count of output row `i` against input sequence `i`. -/
+def lengthDelta (t : Tool) (i : Nat) : Int :=
+  match t with
+  | .garbageLength => if i = 0 then 1 else 0
+  | .garbageSwap => if i = 0 then 1 else if i = 1 then -1 else 0
+  | _ => 0
+
+/-- Does the program's output contain a row failing a length check?  `trace_from_strings` rejects rows of unequal length;
+`MSAApp.evaluate` compares the symbol count of **every** row with its input sequence (inside the loop over the rows). -/
+def badLengths (t : Tool) (n : Nat) : Bool := t = .garbageRagged ∨ (List.range n).any (fun i => lengthDelta t i ≠ 0)
 
 /-- `evaluate()` along the `super()` chain. -/
 def evaluate (s : St) : Except Err (Option (List Nat × List Nat)) :=
@@ -390,7 +405,7 @@ def evaluate (s : St) : Except Err (Option (List Nat × List Nat)) :=
   | .base =>
     if failingExit s.tool then .error errSubprocess
     else if s.tool = .garbageEmpty ∨ s.tool = .garbageRagged ∨ s.tool = .garbageMissing ∨ s.tool = .garbageLength
-        ∨ s.tool = .garbageTree then .error errEval
+        ∨ s.tool = .garbageTree ∨ s.tool = .garbageSwap then .error errEval
     else .ok none
   | .localapp =>
     -- LocalApp.evaluate: `if exit_code != 0: raise SubprocessError`
@@ -401,7 +416,7 @@ def evaluate (s : St) : Except Err (Option (List Nat × List Nat)) :=
     if failingExit s.tool then .error errSubprocess else .ok none
   | w =>
     if failingExit s.tool then .error errSubprocess else
-    match parseOutput (toolRows s.tool s.n) (badLengths s.tool) s.n with
+    match parseOutput (toolRows s.tool s.n) (badLengths s.tool s.n) s.n with
     | .error e => .error e
     | .ok r =>
       -- wrapper part: guide tree file(s)
@@ -431,7 +446,8 @@ def joinTail (s : St) : St × Res :=
 /-- `LocalApp.join(timeout)` body. -/
 def joinLocal (s : St) (timeout : Bool) : St × Res :=
   -- self._process.communicate(timeout=timeout)
-  if exited s ∨ s.child ≠ .alive then
+  -- (a program blocked on a full pipe completes as soon as `communicate()` drains it)
+  if exited s ∨ s.child ≠ .alive ∨ (s.released ∧ blocksOnPipe s) then
     joinTail { waitExit s with state := .finished }
   else if timeout then
     -- except TimeoutExpired: self.cancel(); raise TimeoutError
@@ -480,12 +496,16 @@ inductive Call where
   | getState
   | tick
   | method (name : String)
+  | methodBad (name : String)            -- a setter called with arguments it must reject (`ValueError`)
+  | setGap (a : Int) (b : Option Int)    -- `MuscleApp.set_gap_penalty(a)` / `set_gap_penalty((a, b))`
+  | chdir                                -- environment: the *caller* changes its working directory
   deriving DecidableEq, Repr
 
 /-- Name under which a call is looked up in the guard table (`tick` is not an API call). -/
 def Call.methodName : Call → Option String
   | .start => some "start" | .join _ => some "join" | .cancel => some "cancel"
   | .getState => some "get_app_state" | .method m => some m | .tick => none
+  | .methodBad m => some m | .setGap _ _ => some "set_gap_penalty" | .chdir => none
 
 def showRows (xs : List Nat) : String := Proto.joinWith "," (xs.map fun i => "r" ++ toString i)
 
@@ -512,33 +532,59 @@ def unmapLetter (ch : Char) : Option Nat :=
   if i < proteinLetters.length then some i else none
 
 
-/-- Effect and value of an accepted getter/setter. -/
-def methodBody (s : St) (m : String) : St × Res :=
-  if m = "set_exec_dir" then ({ s with execOther := true }, .ok "")
-  else if m = "full_matrix_calculation" then ({ s with mbed := false }, .ok "")
-  else if m = "set_guide_tree" then ({ s with treeSet := true }, .ok "")
-  else if m = "get_alignment" then
+/-- The part of MUSCLE's command line that depends on a validated option (`-gapopen o -gapextend e`); only this part of
+`get_command()` is compared. -/
+def gapShown (s : St) : String :=
+  match s.w, s.gap with
+  | .muscle3, some (o, e) => s!"gap={o}/{e}"
+  | _, _ => ""
+
+/-- The setters whose effect matters for the life cycle or for a compared value. -/
+def isSetter (m : String) : Bool :=
+  m = "set_exec_dir" || m = "full_matrix_calculation" || m = "set_guide_tree" || m = "set_gap_penalty"
+
+/-- Effect of an accepted setter (valid arguments). -/
+def setterEffect (s : St) (m : String) : St :=
+  if m = "set_exec_dir" then { s with execOther := true }
+  else if m = "full_matrix_calculation" then { s with mbed := false }
+  else if m = "set_guide_tree" then { s with treeSet := true }
+  else { s with gap := some (-10, -10) }     -- `set_gap_penalty(-10.0)` (what the harness passes for `call set_gap_penalty`)
+
+/-- Value of an accepted getter (or of a setter without modelled effect: `None`). -/
+def getterValue (s : St) (m : String) : Res :=
+  if m = "get_alignment" then
     match s.result with
-    | some (rows, _) => (s, .ok (showRows rows))
-    | none => (s, .err (.other "AttributeError"))
+    | some (rows, _) => .ok (showRows rows)
+    | none => .err (.other "AttributeError")
   else if m = "get_alignment_order" then
     match s.result with
-    | some (_, order) => (s, .ok (Proto.showNats order))
-    | none => (s, .err (.other "AttributeError"))
-  else if m = "get_exit_code" then (s, .ok (if s.tool = .exit3 then "3" else if s.tool = .sigkill then "-9" else "0"))
-  else if m = "get_seqtype" then (s, .ok s.seqtype)
+    | some (_, order) => .ok (Proto.showNats order)
+    | none => .err (.other "AttributeError")
+  else if m = "get_exit_code" then .ok (if s.tool = .exit3 then "3" else if s.tool = .sigkill then "-9" else "0")
+  else if m = "get_seqtype" then .ok s.seqtype
   else if m = "get_distance_matrix" then
     -- the fake program writes d(i,j) = |i-j| in input order; the first row is printed
-    (if s.mbed then (s, .err .valueError) else (s, .ok (Proto.showNats (List.range s.n))))
-  else if m = "get_guide_tree" then (s, .ok (showClades s.n))
-  else (s, .ok "")
+    (if s.mbed then .err .valueError else .ok (Proto.showNats (List.range s.n)))
+  else if m = "get_guide_tree" then .ok (showClades s.n)
+  else if m = "get_command" then .ok (gapShown s)
+  else .ok ""
+
+/-- Effect and value of an accepted getter/setter. -/
+def methodBody (s : St) (m : String) : St × Res :=
+  if isSetter m then (setterEffect s m, .ok "") else (s, getterValue s m)
+
+/-- `MuscleApp.set_gap_penalty`: both values are validated **before** either is stored. -/
+def setGapBody (s : St) (a : Int) (b : Option Int) : St × Res :=
+  match b with
+  | none => if a > 0 then (s, .err .valueError) else ({ s with gap := some (a, a) }, .ok "")
+  | some e => if a > 0 ∨ e > 0 then (s, .err .valueError) else ({ s with gap := some (a, e) }, .ok "")
 
 /-- One call on the wrapper (or one environment event). -/
 def step (s : St) (c : Call) : St × Res :=
   match c with
   | .tick =>
     let s := { s with released := true }
-    (if ¬ hangs s.tool then waitExit s else s, .ok "")
+    (if ¬ hangs s.tool ∧ ¬ blocksOnPipe s then waitExit s else s, .ok "")
   | .getState =>
     let (s, st) := getAppState s
     (s, .ok st.name)
@@ -562,6 +608,17 @@ def step (s : St) (c : Call) : St × Res :=
     match guardOf s.w m with
     | some g => if passes g s.state then methodBody s m else (s, .err .stateError)
     | none => (s, .noMethod)
+  | .methodBad m =>
+    match guardOf s.w m with
+    | some g => if passes g s.state then (s, .err .valueError) else (s, .err .stateError)
+    | none => (s, .noMethod)
+  | .setGap a b =>
+    match guardOf s.w "set_gap_penalty" with
+    | some g => if passes g s.state then setGapBody s a b else (s, .err .stateError)
+    | none => (s, .noMethod)
+  | .chdir =>
+    -- nothing of the wrapper changes; "cwd" in the observation is relative to where the caller is *now*
+    (s, .ok "")
 
 /-- A freshly constructed wrapper. -/
 def init (w : Wrapper) (tool : Tool) (n : Nat) (seqtype : String) : St :=
